@@ -2807,6 +2807,8 @@ type snapshotReadPosition struct {
 	pos          ltx.Pos
 	pageSize     int
 	walEndOffset int64
+	walSalt1     uint32 // salts of the WAL that walEndOffset was measured in
+	walSalt2     uint32
 	db           *DB
 	closeOnce    sync.Once
 }
@@ -2864,7 +2866,7 @@ func (db *DB) snapshotPosition(ctx context.Context) (*snapshotReadPosition, erro
 		return nil, fmt.Errorf("pos: %w", err)
 	}
 
-	walEndOffset, err := db.snapshotWALEndOffset(pos)
+	walEndOffset, walSalt1, walSalt2, err := db.snapshotWALEndOffset(pos)
 	if err != nil {
 		return nil, err
 	}
@@ -2883,6 +2885,8 @@ func (db *DB) snapshotPosition(ctx context.Context) (*snapshotReadPosition, erro
 		pos:          pos,
 		pageSize:     pageSize,
 		walEndOffset: walEndOffset,
+		walSalt1:     walSalt1,
+		walSalt2:     walSalt2,
 		db:           db,
 	}, nil
 }
@@ -2890,21 +2894,21 @@ func (db *DB) snapshotPosition(ctx context.Context) (*snapshotReadPosition, erro
 // snapshotWALEndOffset returns the WAL offset a snapshot may read up to for
 // the given position. db.syncState is read without db.mu because every writer
 // mutates it while holding execSem, which the caller also holds.
-func (db *DB) snapshotWALEndOffset(pos ltx.Pos) (int64, error) {
+func (db *DB) snapshotWALEndOffset(pos ltx.Pos) (offset int64, salt1, salt2 uint32, err error) {
 	if pos.TXID == 0 {
-		return WALHeaderSize, nil
+		return WALHeaderSize, 0, 0, nil
 	}
 
 	ltxPath := db.LTXPath(0, pos.TXID, pos.TXID)
 	f, err := os.Open(ltxPath)
 	if err != nil {
-		return 0, NewLTXError("open", ltxPath, 0, uint64(pos.TXID), uint64(pos.TXID), err)
+		return 0, 0, 0, NewLTXError("open", ltxPath, 0, uint64(pos.TXID), uint64(pos.TXID), err)
 	}
 	defer func() { _ = f.Close() }()
 
 	dec := ltx.NewDecoder(f)
 	if err := dec.DecodeHeader(); err != nil {
-		return 0, NewLTXError("decode", ltxPath, 0, uint64(pos.TXID), uint64(pos.TXID), fmt.Errorf("%w: %w", ErrLTXCorrupted, err))
+		return 0, 0, 0, NewLTXError("decode", ltxPath, 0, uint64(pos.TXID), uint64(pos.TXID), fmt.Errorf("%w: %w", ErrLTXCorrupted, err))
 	}
 
 	// Compare WAL headers. If the WAL was restarted since this LTX file was
@@ -2912,23 +2916,23 @@ func (db *DB) snapshotWALEndOffset(pos ltx.Pos) (int64, error) {
 	// apply to the current WAL.
 	hdr, err := readWALHeader(db.WALPath())
 	if os.IsNotExist(err) || errors.Is(err, io.EOF) || errors.Is(err, io.ErrUnexpectedEOF) {
-		return WALHeaderSize, nil
+		return WALHeaderSize, 0, 0, nil
 	} else if err != nil {
-		return 0, fmt.Errorf("cannot read wal header: %w", err)
+		return 0, 0, 0, fmt.Errorf("cannot read wal header: %w", err)
 	}
-	salt1 := binary.BigEndian.Uint32(hdr[16:])
-	salt2 := binary.BigEndian.Uint32(hdr[20:])
+	salt1 = binary.BigEndian.Uint32(hdr[16:])
+	salt2 = binary.BigEndian.Uint32(hdr[20:])
 	if salt1 != dec.Header().WALSalt1 || salt2 != dec.Header().WALSalt2 {
-		return WALHeaderSize, nil
+		return WALHeaderSize, salt1, salt2, nil
 	}
 
 	// The cached offset belongs to the WAL the position was read from; it is
 	// only used once the salts above show that this is still the live WAL
 	// (a checkpoint call that failed half-way leaves the two apart).
 	if db.syncState.lastSyncedWALOffset > 0 {
-		return db.syncState.lastSyncedWALOffset, nil
+		return db.syncState.lastSyncedWALOffset, salt1, salt2, nil
 	}
-	return dec.Header().WALOffset + dec.Header().WALSize, nil
+	return dec.Header().WALOffset + dec.Header().WALSize, salt1, salt2, nil
 }
 
 func (db *DB) snapshotReader(ctx context.Context, pos *snapshotReadPosition) (io.ReadCloser, error) {
@@ -2962,6 +2966,12 @@ func (db *DB) snapshotReader(ctx context.Context, pos *snapshotReadPosition) (io
 
 		// Build a mapping of changed page numbers and their latest content.
 		maxBytes := pos.walEndOffset - WALHeaderSize
+		if maxBytes > 0 && (rd.salt1 != pos.walSalt1 || rd.salt2 != pos.walSalt2) {
+			// The bound was measured in another WAL: a writer restarted it
+			// after the position was captured.
+			pw.CloseWithError(fmt.Errorf("wal restarted before snapshot"))
+			return
+		}
 		pageMap := make(map[uint32]int64)
 		var maxOffset int64
 		var walCommit uint32
